@@ -93,6 +93,12 @@ def main():
             if nh[k] == "lsan unavailable" and nm[k].startswith("lsan "):
                 nh[k] = nm[k]
                 outcomes["(lsan not compared)"] += 1
+            # LeakSanitizer is conservative: a leaked block that a stale stack slot or register still points to counts as reachable.
+            # "harness saw no leak" therefore does not contradict "model predicts a leak" (counted); a leak SEEN by the harness and not
+            # predicted by the model stays a disagreement
+            elif nm[k] == "lsan leaks=1" and nh[k] == "lsan leaks=0":
+                nh[k] = nm[k]
+                outcomes["(leak predicted, not observed by LeakSanitizer)"] += 1
         if nm != nh:
             k = 0
             while k < min(len(nm), len(nh)) and nm[k] == nh[k]:
